@@ -502,7 +502,8 @@ def _main_batch(mod, a, root):
     stats, viols, errors = run_batch(mod, params, tier, root)
     wall = time.time() - t0
     if a.digest:
-        print('DIGEST %016x' % h64(jdump(stats.c), jdump(
+        print('DIGEST %016x' % h64(jdump({k: v for k, v in stats.c.items()
+                                           if not k.startswith('nd.')}), jdump(
             {k: sorted(v) for k, v in stats.s.items()})))
     if errors:
         print('HARNESS-ERROR: %d run(s) raised inside the harness; first:\n%s'
